@@ -1,7 +1,7 @@
 (* CacheProofs.v — the LFU+Badger cache (Model/Cache.v) refines a plain map.
    Everything is proved for an arbitrary equivalence Req on values with dec (enc v) ~ v, so that the same
    development gives C05 (Req = eq) and the lifting lemma of C02 (Req = "same profile up to zero frames" etc.). *)
-From Coq Require Import List Arith Bool Lia Morphisms RelationClasses.
+From Coq Require Import List Arith NArith Bool Lia Morphisms RelationClasses.
 From Pyro Require Import Model.Lfu Model.Cache.
 Import ListNotations.
 Set Implicit Arguments.
@@ -174,3 +174,776 @@ Proof.
 Qed.
 
 End LfuFacts.
+
+Section Refine.
+Context {K V D : Type}.
+Context (keq : forall a b : K, {a = b} + {a <> b}).
+Context (dflt : K -> V) (enc : K -> V -> D) (dec : K -> D -> V).
+Context (Req : V -> V -> Prop) {Req_equiv : Equivalence Req}.
+Context (codec : forall k v, Req (dec k (enc k v)) v).
+
+Notation cache := (cache (K:=K) (V:=V) (D:=D)).
+Notation op := (op (K:=K) (V:=V)).
+Notation out := (out (V:=V)).
+Notation smap := (smap (K:=K) (V:=V)).
+Notation step := (step keq dflt enc dec).
+Notation spec_step := (spec_step keq dflt).
+Notation run := (run keq dflt enc dec).
+Notation spec_run := (spec_run keq dflt).
+Notation tf := (touched_first keq).
+
+Definition out_rel (x y : out) : Prop :=
+  match x, y with
+  | Ret v, Ret v' => Req v v'
+  | Ret _, _ | _, Ret _ => False
+  | _, _ => True
+  end.
+
+(* the functions applied to objects respect the equivalence *)
+Definition congr_op (o : op) : Prop :=
+  match o with OMutate _ f => forall a b, Req a b -> Req (f a) (f b) | _ => True end.
+
+Definition uptodate (k : K) (v' : V) (c : cache) : Prop :=
+  inflight k c \/ exists d, c_disk c k = Some d /\ Req (dec k d) v'.
+
+Record Inv (c : cache) (m : smap) (rest : list op) : Prop := mkInv {
+  inv_q : forall k v, In (k, v) (c_evq c ++ c_wbq c) -> exists v', m k = Some v' /\ Req v v';
+  inv_l : forall k e, In (k, e) (c_lfu c) ->
+            exists v', m k = Some v' /\ Req (e_val e) v' /\
+                       (e_pers e = true -> uptodate k v' c \/ tf k rest);
+  inv_n : forall k, l_find keq k (c_lfu c) = None ->
+            match m k with Some v' => uptodate k v' c | None => c_disk c k = None end
+}.
+
+Lemma inv_init : forall rest, Inv c_empty (s_empty (K:=K) (V:=V)) rest.
+Proof. intros. constructor; cbn; intros; try tauto; try reflexivity. Qed.
+
+Lemma uptodate_transfer : forall k v (c c' : cache),
+  c_disk c' k = c_disk c k -> (inflight k c -> inflight k c') -> uptodate k v c -> uptodate k v c'.
+Proof. intros k v c c' Hd Hi [U|U]; [left; auto | right; rewrite Hd; exact U]. Qed.
+
+Lemma inflight_of_In : forall k v (c : cache), In (k, v) (c_evq c ++ c_wbq c) -> inflight k c.
+Proof. intros k v c H. unfold inflight. apply in_map_iff. exists (k, v); auto. Qed.
+
+Lemma inv_shift : forall c m o rest,
+  (forall k, tf k (o :: rest) -> tf k rest) -> Inv c m (o :: rest) -> Inv c m rest.
+Proof.
+  intros c m o rest Ht [Hq Hl Hn]. constructor; auto.
+  intros k e Hi. destruct (Hl _ _ Hi) as (v' & A & B & C). exists v'. repeat split; auto.
+  intros P. destruct (C P); auto.
+Qed.
+
+(* an entry of k is (re)written with a value equivalent to the new specification value *)
+Lemma inv_set : forall c m m' o k v v' rest,
+  Inv c m (o :: rest) -> quiet k c ->
+  (forall k0, k0 <> k -> tf k0 (o :: rest) -> tf k0 rest) ->
+  m' k = Some v' -> (forall k0, k0 <> k -> m' k0 = m k0) -> Req v v' ->
+  Inv (mkC (l_set keq k v (c_lfu c)) (c_disk c) (c_evq c) (c_wbq c)) m' rest.
+Proof.
+  intros c m m' o k v v' rest [Hq Hl Hn] Q Ht Hk Ho R. constructor; cbn [c_lfu c_disk c_evq c_wbq].
+  - intros k0 v0 Hi. destruct (keq k0 k) as [->|N].
+    + exfalso. apply Q. eapply inflight_of_In; eauto.
+    + rewrite Ho by exact N. eauto.
+  - intros k0 e0 Hi. apply In_set in Hi. destruct Hi as [(-> & Hv & Hp)|(N & Hi)].
+    + exists v'. rewrite Hv. repeat split; auto. intros P; congruence.
+    + destruct (Hl _ _ Hi) as (v0 & A & B & C). exists v0. rewrite Ho by exact N. repeat split; auto.
+      intros P. destruct (C P) as [U|T]; [left; exact U | right; auto].
+  - intros k0 H0. apply l_find_set_none in H0. destruct H0 as [N H0]. rewrite Ho by exact N.
+    specialize (Hn _ H0). destruct (m k0); exact Hn.
+Qed.
+
+Lemma inv_upd : forall c m m' o k e e1 v' rest,
+  Inv c m (o :: rest) -> quiet k c -> l_find keq k (c_lfu c) = Some e ->
+  (forall k0, k0 <> k -> tf k0 (o :: rest) -> tf k0 rest) ->
+  m' k = Some v' -> (forall k0, k0 <> k -> m' k0 = m k0) -> Req (e_val e1) v' -> e_pers e1 = false ->
+  Inv (mkC (l_upd keq k e1 (c_lfu c)) (c_disk c) (c_evq c) (c_wbq c)) m' rest.
+Proof.
+  intros c m m' o k e e1 v' rest [Hq Hl Hn] Q E Ht Hk Ho R P1. constructor; cbn [c_lfu c_disk c_evq c_wbq].
+  - intros k0 v0 Hi. destruct (keq k0 k) as [->|N].
+    + exfalso. apply Q. eapply inflight_of_In; eauto.
+    + rewrite Ho by exact N. eauto.
+  - intros k0 e0 Hi. apply In_upd in Hi. destruct Hi as [(-> & ->)|(N & Hi)].
+    + exists v'. repeat split; auto. intros P; congruence.
+    + destruct (Hl _ _ Hi) as (v0 & A & B & C). exists v0. rewrite Ho by exact N. repeat split; auto.
+      intros P. destruct (C P) as [U|T]; [left; exact U | right; auto].
+  - intros k0 H0. apply l_find_upd_none in H0.
+    assert (N : k0 <> k) by (intros ->; congruence).
+    rewrite Ho by exact N. specialize (Hn _ H0). destruct (m k0); exact Hn.
+Qed.
+
+Lemma tf_put_other : forall k k0 (v : V) (rest : list op), k0 <> k -> tf k0 (OPut k v :: rest) -> tf k0 rest.
+Proof. intros k k0 v rest N. cbn. destruct (keq k0 k); [congruence | auto]. Qed.
+Lemma tf_read_other : forall k k0 (rest : list op), k0 <> k -> tf k0 (ORead k :: rest) -> tf k0 rest.
+Proof. intros k k0 rest N. cbn. destruct (keq k0 k); [congruence | auto]. Qed.
+Lemma tf_delete_other : forall k k0 (rest : list op), k0 <> k -> tf k0 (ODelete k :: rest) -> tf k0 rest.
+Proof. intros k k0 rest N. cbn. destruct (keq k0 k); [congruence | auto]. Qed.
+
+Lemma s_set_same : forall k x (m : smap), s_set keq k x m k = x.
+Proof. intros. unfold s_set. destruct (keq k k); congruence. Qed.
+Lemma s_set_other : forall k k0 x (m : smap), k0 <> k -> s_set keq k x m k0 = m k0.
+Proof. intros. unfold s_set. destruct (keq k0 k); congruence. Qed.
+
+(* ---------- one step ---------- *)
+Lemma step_sim : forall c m o rest,
+  Inv c m (o :: rest) -> op_ok keq c o rest -> congr_op o ->
+  out_rel (snd (step c o)) (snd (spec_step m o)) /\ Inv (fst (step c o)) (fst (spec_step m o)) rest.
+Proof.
+  intros c m o rest HI OK CG. destruct o as [k v|k|k f|k|num den order|acc| |wb].
+  - (* Put *)
+    cbn. split; [exact I|].
+    eapply inv_set; eauto.
+    + intros k0 N. apply tf_put_other; auto.
+    + apply s_set_same.
+    + intros; apply s_set_other; auto.
+    + reflexivity.
+  - (* Read *)
+    cbn in OK. cbn [step]. unfold l_get. destruct (l_find keq k (c_lfu c)) as [e|] eqn:E.
+    + destruct (inv_l HI _ _ (l_find_In _ _ _ E)) as (v' & A & B & _).
+      cbn [spec_step]. rewrite A. cbn [fst snd]. split; [exact B|].
+      eapply inv_upd with (e1 := mkE (e_val e) (S (e_freq e)) false); eauto.
+      intros k0 N. apply tf_read_other; auto.
+    + pose proof (inv_n HI _ E) as Hn. cbn [spec_step]. destruct (m k) as [v'|] eqn:A.
+      * destruct Hn as [U|(d & Hd & R)]; [exfalso; exact (OK U)|].
+        rewrite Hd. cbn [fst snd]. split; [exact R|].
+        eapply inv_set; eauto. intros k0 N. apply tf_read_other; auto.
+      * rewrite Hn. cbn [fst snd]. split; [cbn; reflexivity|].
+        eapply inv_set; eauto.
+        -- intros k0 N. apply tf_read_other; auto.
+        -- apply s_set_same.
+        -- intros; apply s_set_other; auto.
+        -- reflexivity.
+  - (* Mutate *)
+    cbn in OK. destruct OK as (Q & e & E & P). cbn in CG.
+    destruct (inv_l HI _ _ (l_find_In _ _ _ E)) as (v' & A & B & _).
+    cbn [step spec_step]. unfold l_poke. rewrite E, A. cbn [fst snd]. split; [exact I|].
+    eapply inv_upd with (o := OMutate k f) (e := e) (e1 := mkE (f (e_val e)) (e_freq e) (e_pers e)) (v' := f v');
+      [exact HI | exact Q | exact E | intros k0 N T; exact T | apply s_set_same | intros; apply s_set_other; auto
+      | cbn; auto | exact P].
+  - (* Delete *)
+    cbn in OK. cbn. split; [exact I|]. destruct HI as [Hq Hl Hn].
+    constructor; cbn [c_lfu c_disk c_evq c_wbq].
+    + intros k0 v0 Hi. destruct (keq k0 k) as [->|N].
+      * exfalso. apply OK. eapply inflight_of_In; eauto.
+      * rewrite s_set_other by exact N. eauto.
+    + intros k0 e0 Hi. apply In_remove in Hi. destruct Hi as [N Hi].
+      destruct (Hl _ _ Hi) as (v0 & A & B & C). exists v0. rewrite s_set_other by exact N. repeat split; auto.
+      intros P. destruct (C P) as [U|T].
+      * left. eapply uptodate_transfer; [| |exact U]; cbn; [unfold d_set; destruct (keq k0 k); congruence | auto].
+      * right. eapply tf_delete_other; eauto.
+    + intros k0 H0. destruct (keq k0 k) as [->|N].
+      * rewrite s_set_same. unfold d_set. destruct (keq k k); congruence.
+      * rewrite s_set_other by exact N. apply l_find_remove_none in H0. destruct H0 as [H0|H0]; [congruence|].
+        specialize (Hn _ H0). destruct (m k0).
+        -- eapply uptodate_transfer; [| |exact Hn]; cbn; [unfold d_set; destruct (keq k0 k); congruence | auto].
+        -- unfold d_set. destruct (keq k0 k); congruence.
+  - (* Evict *)
+    cbn [spec_step fst snd].
+    assert (Same : Inv c m rest).
+    { destruct HI as [Hq Hl Hn]. constructor; auto. intros k e Hi.
+      destruct (Hl _ _ Hi) as (v0 & A & B & C). exists v0. repeat split; auto.
+      intros P. destruct (C P) as [U|T]; [auto | destruct T]. }
+    cbn [step]. destruct den as [|den']; [cbn; auto|].
+    destruct (l_evict keq order (l_len (c_lfu c) * num / S den') (c_lfu c)) as [[l' sends]|] eqn:E; [|cbn; auto].
+    cbn [fst snd]. split; [exact I|].
+    destruct (evict_spec _ _ _ _ E) as (EA & EB & EC). destruct Same as [Hq Hl Hn].
+    assert (Mono : forall k, inflight k c -> inflight k (mkC l' (c_disk c) (c_evq c ++ sends) (c_wbq c))).
+    { intros k. unfold inflight. cbn. rewrite !map_app, !in_app_iff. tauto. }
+    constructor; cbn [c_lfu c_disk c_evq c_wbq].
+    + intros k v Hi. rewrite <- app_assoc in Hi. apply in_app_or in Hi. destruct Hi as [Hi|Hi].
+      * apply Hq. apply in_or_app; auto.
+      * apply in_app_or in Hi. destruct Hi as [Hi|Hi].
+        -- destruct (EB _ _ Hi) as (e & He & Hv). destruct (Hl _ _ He) as (v0 & A & B & _). exists v0. subst v. auto.
+        -- apply Hq. apply in_or_app; auto.
+    + intros k e Hi. apply EA in Hi. destruct (Hl _ _ Hi) as (v0 & A & B & C). exists v0. repeat split; auto.
+      intros P. destruct (C P) as [U|T]; [left | right; exact T].
+      eapply uptodate_transfer; [| |exact U]; [reflexivity | apply Mono].
+    + intros k H0. destruct (l_find keq k (c_lfu c)) as [e|] eqn:F.
+      * apply l_find_In in F. destruct (EC _ _ F) as [Hin|(e1 & He1 & Hp)].
+        -- apply l_find_none in H0. tauto.
+        -- destruct (inv_l HI _ _ He1) as (v0 & A & B & C). rewrite A. destruct Hp as [Hp|Hp].
+           ++ destruct (C Hp) as [U|T]; [|destruct T].
+              eapply uptodate_transfer; [| |exact U]; [reflexivity | apply Mono].
+           ++ left. unfold inflight. cbn. apply in_map_iff. exists (k, e_val e1). split; [reflexivity|].
+              apply in_or_app. left. apply in_or_app. right. exact Hp.
+      * specialize (Hn _ F). destruct (m k); [|exact Hn].
+        eapply uptodate_transfer; [| |exact Hn]; [reflexivity | apply Mono].
+  - (* WriteBack *)
+    cbn [spec_step fst snd].
+    assert (Same : Inv c m rest) by (eapply inv_shift; [|exact HI]; intros k T; exact T).
+    cbn [step]. destruct (l_persist keq acc (c_lfu c)) as [[l' sends]|] eqn:E; [|cbn; auto].
+    cbn [fst snd]. split; [exact I|].
+    destruct (persist_spec _ _ _ E) as (PA & PK & PB & PC). cbn in OK. destruct Same as [Hq Hl Hn].
+    assert (Mono : forall k, inflight k c -> inflight k (mkC l' (c_disk c) (c_evq c) (c_wbq c ++ sends))).
+    { intros k. unfold inflight. cbn. rewrite !map_app, !in_app_iff. tauto. }
+    constructor; cbn [c_lfu c_disk c_evq c_wbq].
+    + intros k v Hi. rewrite app_assoc in Hi. apply in_app_or in Hi. destruct Hi as [Hi|Hi].
+      * apply Hq. exact Hi.
+      * destruct (PB _ _ Hi) as (e & He & Hv). destruct (Hl _ _ He) as (v0 & A & B & _). exists v0. subst v. auto.
+    + intros k e' Hi. destruct (PA _ _ Hi) as (e & He & Hv & Hp).
+      destruct (Hl _ _ He) as (v0 & A & B & C). exists v0. rewrite Hv. repeat split; auto.
+      intros P. destruct (Hp P) as [P0|Fr].
+      * destruct (C P0) as [U|T]; [left | right; exact T].
+        eapply uptodate_transfer; [| |exact U]; [reflexivity | apply Mono].
+      * destruct (OK _ Fr) as [Ha|T]; [left | right; exact T].
+        left. unfold inflight. cbn. rewrite !map_app, !in_app_iff. right. right.
+        apply PC; [exact Ha|]. apply in_map_iff. exists (k, e); auto.
+    + intros k H0. assert (F : l_find keq k (c_lfu c) = None).
+      { apply l_find_none. apply l_find_none in H0. rewrite PK in H0. exact H0. }
+      specialize (Hn _ F). destruct (m k); [|exact Hn].
+      eapply uptodate_transfer; [| |exact Hn]; [reflexivity | apply Mono].
+  - (* FlushReopen *)
+    cbn [spec_step step fst snd]. split; [exact I|].
+    destruct HI as [Hq Hl Hn].
+    set (allq := c_wbq c ++ c_evq c ++ flush_sends (c_lfu c)).
+    assert (Dk : complete keq enc (flush_sends (c_lfu c)) (complete keq enc (c_evq c) (complete keq enc (c_wbq c) (c_disk c)))
+                 = complete keq enc allq (c_disk c)).
+    { unfold allq, complete. rewrite !fold_left_app. reflexivity. }
+    rewrite Dk.
+    assert (All : forall k v, In (k, v) allq -> exists v', m k = Some v' /\ Req v v').
+    { intros k v Hi. unfold allq in Hi. apply in_app_or in Hi. destruct Hi as [Hi|Hi].
+      - apply Hq. apply in_or_app; auto.
+      - apply in_app_or in Hi. destruct Hi as [Hi|Hi].
+        + apply Hq. apply in_or_app; auto.
+        + unfold flush_sends in Hi. apply in_map_iff in Hi. destruct Hi as [[k1 e1] [H1 H2]]. cbn in H1.
+          inversion H1; subst. apply filter_In in H2. destruct H2 as [H2 _].
+          destruct (Hl _ _ H2) as (v0 & A & B & _). eauto. }
+    assert (Cmp : forall q (d : disk (K:=K) (D:=D)) k,
+              (In k (map fst q) -> exists v, In (k, v) q /\ complete keq enc q d k = Some (enc k v)) /\
+              (~ In k (map fst q) -> complete keq enc q d k = d k)).
+    { induction q as [|[k1 v1] q IH] using rev_ind; intros d k.
+      - cbn. split; [tauto | auto].
+      - assert (EQ : complete keq enc (q ++ [(k1, v1)]) d k = if keq k k1 then Some (enc k1 v1) else complete keq enc q d k).
+        { unfold complete. rewrite fold_left_app. cbn [fold_left]. unfold save at 1. cbn [fst snd]. unfold d_set. reflexivity. }
+        rewrite EQ. rewrite map_app, in_app_iff. cbn [map fst In].
+        destruct (keq k k1) as [->|N].
+        + split; [|tauto]. intros _. exists v1. split; [apply in_or_app; right; left; reflexivity | reflexivity].
+        + destruct (IH d k) as [I1 I2]. split.
+          * intros [Hi|[Hi|[]]]; [|congruence]. destruct (I1 Hi) as (v & A & B). exists v. split; [apply in_or_app; auto | exact B].
+          * intros Hi. apply I2. tauto. }
+    constructor; cbn [c_lfu c_disk c_evq c_wbq].
+    + intros k v [].
+    + intros k e [].
+    + intros k _. destruct (Cmp allq (c_disk c) k) as [C1 C2].
+      destruct (in_dec keq k (map fst allq)) as [Hi|Hi].
+      * destruct (C1 Hi) as (v & A & B). destruct (All _ _ A) as (v' & Hm & R). rewrite Hm.
+        right. exists (enc k v). split; [exact B|]. etransitivity; [apply codec | exact R].
+      * assert (NQ : ~ inflight k c).
+        { unfold inflight. intros Hf. apply Hi. unfold allq. rewrite !map_app, !in_app_iff in *. tauto. }
+        destruct (l_find keq k (c_lfu c)) as [e|] eqn:F.
+        -- apply l_find_In in F. destruct (Hl _ _ F) as (v0 & A & B & C). rewrite A.
+           destruct (e_pers e) eqn:P.
+           ++ destruct (C eq_refl) as [[U|U]|[]]; [tauto | right; cbn [c_disk]; rewrite (C2 Hi); exact U].
+           ++ exfalso. apply Hi. unfold allq. rewrite !map_app, !in_app_iff. right. right.
+              unfold flush_sends. rewrite map_map. cbn [fst]. apply in_map_iff. exists (k, e). split; [reflexivity|].
+              apply filter_In. cbn. rewrite P. auto.
+        -- specialize (Hn _ F). destruct (m k).
+           ++ destruct Hn as [U|U]; [tauto | right; cbn [c_disk]; rewrite (C2 Hi); exact U].
+           ++ rewrite (C2 Hi). exact Hn.
+  - (* SaveCompletes *)
+    cbn [spec_step fst snd].
+    assert (Same : Inv c m rest) by (eapply inv_shift; [|exact HI]; intros k T; exact T).
+    assert (Gen : forall kv q c',
+              c_lfu c' = c_lfu c -> c_disk c' = save keq enc kv (c_disk c) ->
+              In kv (c_evq c ++ c_wbq c) ->
+              (forall x, In x (c_evq c' ++ c_wbq c') -> In x (c_evq c ++ c_wbq c)) ->
+              (forall k, k <> fst kv -> inflight k c -> inflight k c') ->
+              q = tt -> Inv c' m rest).
+    { intros [k1 v1] q c' EL ED Hin Sub Keep _. destruct Same as [Hq Hl Hn].
+      destruct (Hq _ _ Hin) as (v1' & A1 & R1).
+      assert (UT : forall k v', m k = Some v' -> uptodate k v' c -> uptodate k v' c').
+      { intros k v' A U. destruct (keq k k1) as [->|N].
+        - right. rewrite ED. unfold save, d_set. cbn [fst snd]. destruct (keq k1 k1); [|congruence].
+          exists (enc k1 v1). split; [reflexivity|]. rewrite A1 in A. inversion A; subst.
+          etransitivity; [apply codec | exact R1].
+        - destruct U as [U|U]; [left; apply Keep; auto|]. right. rewrite ED. unfold save, d_set. cbn [fst snd].
+          destruct (keq k k1); [congruence | exact U]. }
+      constructor.
+      - intros k v Hi. apply Hq. apply Sub. exact Hi.
+      - rewrite EL. intros k e Hi. destruct (Hl _ _ Hi) as (v0 & A & B & C). exists v0. repeat split; auto.
+        intros P. destruct (C P) as [U|T]; [left; apply UT; auto | right; exact T].
+      - rewrite EL. intros k F. specialize (Hn _ F). destruct (m k) as [v'|] eqn:A.
+        + apply UT; auto.
+        + rewrite ED. unfold save, d_set. cbn [fst snd]. destruct (keq k k1) as [->|N]; [congruence | exact Hn]. }
+    destruct wb; cbn [step].
+    + destruct (c_wbq c) as [|kv q] eqn:EQ; cbn [fst snd]; [auto|]. split; [exact I|].
+      apply (Gen kv tt); cbn [c_lfu c_disk c_evq c_wbq]; auto.
+      * apply in_or_app. right. left. reflexivity.
+      * intros x Hi. rewrite in_app_iff in *. cbn. tauto.
+      * intros k N. unfold inflight. cbn [c_evq c_wbq]. rewrite EQ, !map_app, !in_app_iff. cbn [map In]. intros [H|[H|H]]; auto. congruence.
+    + destruct (c_evq c) as [|kv q] eqn:EQ; cbn [fst snd]; [auto|]. split; [exact I|].
+      apply (Gen kv tt); cbn [c_lfu c_disk c_evq c_wbq]; auto.
+      * left. reflexivity.
+      * intros x Hi. cbn. right. exact Hi.
+      * intros k N. unfold inflight. cbn [c_evq c_wbq]. rewrite EQ. cbn [app map In]. intros [H|H]; auto. congruence.
+Qed.
+
+
+(* ---------- histories ---------- *)
+Theorem refines_general : forall ops c m,
+  Inv c m ops -> admissible keq dflt enc dec c ops -> Forall congr_op ops ->
+  Forall2 out_rel (fst (run c ops)) (fst (spec_run m ops)) /\ Inv (snd (run c ops)) (snd (spec_run m ops)) [].
+Proof.
+  induction ops as [|o r IH]; intros c m HI AD CG.
+  - cbn. split; [constructor | exact HI].
+  - cbn in AD. destruct AD as [OK AD]. inversion CG as [|? ? C1 C2]; subst.
+    destruct (step_sim HI OK C1) as [R HI'].
+    cbn [Cache.run Cache.spec_run]. destruct (step c o) as [c' x] eqn:ES. destruct (spec_step m o) as [m' y] eqn:ESS.
+    cbn [fst snd] in *. specialize (IH c' m' HI' AD C2).
+    destruct (run c' r) as [xs c'']. destruct (spec_run m' r) as [ys m'']. cbn [fst snd] in *.
+    destruct IH. split; [constructor; auto | auto].
+Qed.
+
+Lemma run_app : forall a b c, snd (run c (a ++ b)) = snd (run (snd (run c a)) b).
+Proof.
+  induction a as [|o a IH]; intros b c; [reflexivity|].
+  cbn [app Cache.run]. destruct (step c o) as [c' x]. specialize (IH b c').
+  destruct (run c' (a ++ b)) as [xs c2]. destruct (run c' a) as [ys c3]. cbn [snd] in *. exact IH.
+Qed.
+
+Lemma spec_run_app : forall a b m, snd (spec_run m (a ++ b)) = snd (spec_run (snd (spec_run m a)) b).
+Proof.
+  induction a as [|o a IH]; intros b m; [reflexivity|].
+  cbn [app Cache.spec_run]. destruct (spec_step m o) as [m' x]. specialize (IH b m').
+  destruct (spec_run m' (a ++ b)) as [xs c2]. destruct (spec_run m' a) as [ys c3]. cbn [snd] in *. exact IH.
+Qed.
+
+Lemma Forall_app_l : forall A (P : A -> Prop) a b, Forall P (a ++ b) -> Forall P a.
+Proof. intros A P a b H. apply Forall_forall. intros x Hx. rewrite Forall_forall in H. apply H. apply in_or_app; auto. Qed.
+
+(* after Flush + reopen: nothing in memory, nothing in flight, every live key on disk, deleted keys absent *)
+Theorem flush_durable : forall ops,
+  admissible keq dflt enc dec c_empty (ops ++ [OFlushReopen]) -> Forall congr_op ops ->
+  let c' := snd (run c_empty (ops ++ [OFlushReopen])) in
+  let m' := snd (spec_run (s_empty (K:=K) (V:=V)) ops) in
+  c_lfu c' = [] /\ c_evq c' = [] /\ c_wbq c' = [] /\
+  forall k, match m' k with
+            | Some v' => exists d, c_disk c' k = Some d /\ Req (dec k d) v'
+            | None => c_disk c' k = None
+            end.
+Proof.
+  intros ops AD CG c' m'.
+  assert (CG' : Forall congr_op (ops ++ [OFlushReopen])).
+  { apply Forall_app. split; [exact CG | constructor; [exact I | constructor]]. }
+  destruct (@refines_general (ops ++ [OFlushReopen]) _ _ (inv_init _) AD CG') as [_ HI].
+  fold c' in HI. rewrite spec_run_app in HI. cbn [Cache.spec_run Cache.spec_step snd] in HI. fold m' in HI.
+  assert (E : c' = fst (step (snd (run c_empty ops)) OFlushReopen)).
+  { unfold c'. rewrite run_app. cbn [Cache.run]. destruct (step (snd (run c_empty ops)) OFlushReopen). reflexivity. }
+  cbn [Cache.step fst] in E.
+  assert (L : c_lfu c' = []) by (rewrite E; reflexivity).
+  assert (Q1 : c_evq c' = []) by (rewrite E; reflexivity).
+  assert (Q2 : c_wbq c' = []) by (rewrite E; reflexivity).
+  repeat split; auto.
+  intros k. pose proof (inv_n HI k) as Hn. rewrite L in Hn. specialize (Hn eq_refl).
+  destruct (m' k); [|exact Hn].
+  destruct Hn as [U|U]; [|exact U]. unfold inflight in U. rewrite Q1, Q2 in U. destruct U.
+Qed.
+
+(* ---------- without write-back no entry is ever marked persisted ---------- *)
+Definition nopers (c : cache) : Prop := forall k e, In (k, e) (c_lfu c) -> e_pers e = false.
+
+Lemma nopers_step : forall c o, nopers c -> is_writeback o = false -> nopers (fst (step c o)).
+Proof.
+  intros c o NP NW. destruct o as [k v|k|k f|k|num den order|acc| |wb]; cbn [Cache.step]; try discriminate.
+  - intros k0 e0 Hi. cbn in Hi. apply In_set in Hi. destruct Hi as [(_ & _ & P)|(_ & Hi)]; [auto | eapply NP; eauto].
+  - unfold l_get. destruct (l_find keq k (c_lfu c)) eqn:E; cbn [fst]; intros k0 e0 Hi; cbn in Hi.
+    + apply In_upd in Hi. destruct Hi as [(_ & ->)|(_ & Hi)]; [reflexivity | eapply NP; eauto].
+    + apply In_set in Hi. destruct Hi as [(_ & _ & P)|(_ & Hi)]; [auto | eapply NP; eauto].
+  - intros k0 e0 Hi. cbn in Hi. apply In_poke in Hi. destruct Hi as [(_ & e & E & _ & P)|(_ & Hi)]; [|eapply NP; eauto].
+    rewrite P. eapply NP. eapply l_find_In; eauto.
+  - intros k0 e0 Hi. cbn in Hi. apply In_remove in Hi. destruct Hi. eapply NP; eauto.
+  - destruct den; [exact NP|]. destruct (l_evict keq order (l_len (c_lfu c) * num / S den) (c_lfu c)) as [[l' sends]|] eqn:E; [|exact NP].
+    cbn [fst]. intros k0 e0 Hi. cbn in Hi. destruct (evict_spec _ _ _ _ E) as (EA & _). eapply NP; eauto.
+  - cbn [fst]. intros k0 e0 [].
+  - destruct wb; [destruct (c_wbq c) | destruct (c_evq c)]; exact NP.
+Qed.
+
+Lemma admissible0_admissible : forall ops c,
+  nopers c -> no_writeback ops -> admissible0 keq dflt enc dec c ops -> admissible keq dflt enc dec c ops.
+Proof.
+  induction ops as [|o r IH]; intros c NP NW AD; [exact I|].
+  unfold no_writeback in NW. cbn in NW. apply andb_prop in NW. destruct NW as [NW1 NW].
+  cbn in AD. destruct AD as [OK AD]. cbn. split.
+  - destruct o; cbn in *; auto; try discriminate.
+    destruct OK as [Q F]. split; [exact Q|]. destruct (l_find keq k (c_lfu c)) as [e|] eqn:E; [|congruence].
+    exists e. split; [reflexivity|]. eapply NP. eapply l_find_In; eauto.
+  - apply IH; auto. apply nopers_step; auto. destruct (is_writeback o); [discriminate | reflexivity].
+Qed.
+
+Theorem refines_nowb : forall ops,
+  no_writeback ops -> admissible0 keq dflt enc dec c_empty ops -> Forall congr_op ops ->
+  Forall2 out_rel (fst (run c_empty ops)) (fst (spec_run (s_empty (K:=K) (V:=V)) ops)).
+Proof.
+  intros ops NW AD CG. eapply refines_general; [apply inv_init | | exact CG].
+  apply admissible0_admissible; auto. intros k e [].
+Qed.
+
+
+(* ---------- client-level histories: the synchronous discipline is admissible ---------- *)
+Notation lower := (lower (K:=K) (V:=V)).
+Notation lower1 := (lower1 (K:=K) (V:=V)).
+Notation admissible0 := (admissible0 keq dflt enc dec).
+
+Definition cclean (c : cache) : Prop := c_evq c = [] /\ c_wbq c = [] /\ nopers c.
+
+Lemma run_cons_snd : forall c o r, snd (run c (o :: r)) = snd (run (fst (step c o)) r).
+Proof. intros. cbn [Cache.run]. destruct (step c o) as [c' x]. cbn [fst]. destruct (run c' r). reflexivity. Qed.
+
+Lemma admissible0_app : forall a b c, admissible0 c a -> admissible0 (snd (run c a)) b -> admissible0 c (a ++ b).
+Proof.
+  induction a as [|o a IH]; intros b c A B; [exact B|].
+  cbn in A. destruct A as [A1 A2]. cbn [app Cache.admissible0]. split; [exact A1|].
+  apply IH; [exact A2|]. rewrite run_cons_snd in B. exact B.
+Qed.
+
+Lemma no_writeback_app : forall a b : list op, no_writeback a -> no_writeback b -> no_writeback (a ++ b).
+Proof. intros a b A B. unfold no_writeback in *. rewrite forallb_app, A, B. reflexivity. Qed.
+
+Lemma quiet_clean : forall (c : cache) (k : K), c_evq c = [] -> c_wbq c = [] -> quiet k c.
+Proof. intros c k E W. unfold quiet, inflight. rewrite E, W. cbn. tauto. Qed.
+
+Lemma l_find_upd_same : forall k e e1 (l : lfu (K:=K) (V:=V)), l_find keq k l = Some e -> l_find keq k (l_upd keq k e1 l) = Some e1.
+Proof.
+  induction l as [|[k1 e2] l IH]; cbn; [discriminate|].
+  destruct (keq k k1) as [->|N]; cbn.
+  - destruct (keq k1 k1); [reflexivity | congruence].
+  - destruct (keq k k1); [congruence | exact IH].
+Qed.
+
+Lemma l_find_app_new : forall k e (l : lfu (K:=K) (V:=V)), l_find keq k l = None -> l_find keq k (l ++ [(k, e)]) = Some e.
+Proof.
+  induction l as [|[k1 e2] l IH]; cbn.
+  - destruct (keq k k); [reflexivity | congruence].
+  - destruct (keq k k1); [discriminate | exact IH].
+Qed.
+
+Lemma read_present : forall c k, l_find keq k (c_lfu (fst (step c (ORead k)))) <> None.
+Proof.
+  intros c k. cbn [Cache.step]. unfold l_get. destruct (l_find keq k (c_lfu c)) as [e|] eqn:E; cbn [fst c_lfu].
+  - erewrite l_find_upd_same by eauto. discriminate.
+  - unfold l_set. rewrite E. rewrite l_find_app_new by exact E. discriminate.
+Qed.
+
+Lemma evict_len : forall order count (l l' : lfu (K:=K) (V:=V)) sends,
+  l_evict keq order count l = Some (l', sends) -> length sends <= length order.
+Proof.
+  induction order as [|k0 order IH]; intros count l l' sends H.
+  - destruct count; cbn in H; [inversion H; subst; cbn; lia | discriminate].
+  - destruct count; cbn in H; [inversion H; subst; cbn; lia|].
+    destruct (l_find keq k0 l) as [e0|]; [|discriminate].
+    destruct (Nat.eqb (e_freq e0) (l_minfreq l)); [|discriminate].
+    destruct (l_evict keq order count (l_remove keq k0 l)) as [[l1 s1]|] eqn:E1; [|discriminate].
+    inversion H; subst. apply IH in E1. destruct (e_pers e0); cbn; lia.
+Qed.
+
+Lemma run_sc : forall n c,
+  let c' := snd (run c (repeat (OSaveCompletes false) n)) in
+  c_lfu c' = c_lfu c /\ c_wbq c' = c_wbq c /\ c_evq c' = skipn n (c_evq c).
+Proof.
+  induction n as [|n IH]; intros c; [cbn; auto|].
+  cbn [repeat]. cbv zeta. rewrite run_cons_snd. destruct (IH (fst (step c (OSaveCompletes false)))) as (A & B & C).
+  rewrite A, B, C. cbn [Cache.step]. destruct (c_evq c) as [|kv q] eqn:E; cbn [fst c_lfu c_wbq c_evq].
+  - rewrite E. rewrite skipn_nil. auto.
+  - auto.
+Qed.
+
+Lemma admissible0_sc : forall n c, admissible0 c (repeat (OSaveCompletes false) n).
+Proof. induction n; intros c; cbn; auto. Qed.
+
+Lemma sync1 : forall c o, cclean c -> is_sync o = true ->
+  admissible0 c (lower1 o) /\ no_writeback (lower1 o) /\ cclean (snd (run c (lower1 o))).
+Proof.
+  intros c o (E & W & NP) HS.
+  assert (CL : forall o1, is_writeback o1 = false ->
+               c_evq (fst (step c o1)) = [] -> c_wbq (fst (step c o1)) = [] -> cclean (fst (step c o1))).
+  { intros o1 NW A B. repeat split; auto. apply nopers_step; auto. }
+  destruct o as [k v|k|k f|k|num den order|num den order| |acc| ]; try discriminate; cbn [Cache.lower1].
+  - split; [cbn; split; [apply quiet_clean; auto | exact I]|]. split; [reflexivity|].
+    rewrite run_cons_snd. cbn [Cache.run snd]. apply CL; auto.
+  - split; [cbn; split; [apply quiet_clean; auto | exact I]|]. split; [reflexivity|].
+    rewrite run_cons_snd. cbn [Cache.run snd]. apply CL; auto.
+    + cbn [Cache.step]. destruct (l_get keq k (c_lfu c)) as [[v|] l']; exact E.
+    + cbn [Cache.step]. destruct (l_get keq k (c_lfu c)) as [[v|] l']; exact W.
+  - assert (C1 : cclean (fst (step c (ORead k)))).
+    { apply CL; auto; cbn [Cache.step]; destruct (l_get keq k (c_lfu c)) as [[v|] l']; assumption. }
+    destruct C1 as (E1 & W1 & NP1).
+    split; [|split; [reflexivity|]].
+    + cbn [Cache.admissible0]. split; [apply quiet_clean; auto|]. split; [|exact I].
+      split; [apply quiet_clean; auto | apply read_present].
+    + rewrite !run_cons_snd. cbn [Cache.run snd]. repeat split; auto.
+      apply nopers_step; auto.
+  - split; [cbn; split; [apply quiet_clean; auto | exact I]|]. split; [reflexivity|].
+    rewrite run_cons_snd. cbn [Cache.run snd]. apply CL; auto.
+  - split; [|split].
+    + cbn [Cache.admissible0 Cache.op_ok0]. split; [exact I | apply admissible0_sc].
+    + unfold no_writeback. cbn [forallb is_writeback negb andb]. induction (length order); cbn; auto.
+    + rewrite run_cons_snd. destruct (run_sc (length order) (fst (step c (OEvict num den order)))) as (A & B & C).
+      unfold cclean, nopers. rewrite A, B, C.
+      assert (NP1 : nopers (fst (step c (OEvict num den order)))) by (apply nopers_step; auto).
+      cbn [Cache.step] in *. destruct den as [|den']; cbn [fst c_evq c_wbq c_lfu] in *.
+      * rewrite E. rewrite skipn_nil. auto.
+      * destruct (l_evict keq order (l_len (c_lfu c) * num / S den') (c_lfu c)) as [[l' sends]|] eqn:EV; cbn [fst c_evq c_wbq c_lfu] in *.
+        -- rewrite E. cbn [app]. rewrite skipn_all2 by (eapply evict_len; eauto). auto.
+        -- rewrite E. rewrite skipn_nil. auto.
+  - split; [cbn; auto|]. split; [reflexivity|].
+    rewrite run_cons_snd. cbn [Cache.run snd Cache.step fst]. repeat split; auto. intros k e [].
+Qed.
+
+Lemma sync_admissible : forall cops c, cclean c -> forallb (is_sync (K:=K) (V:=V)) cops = true ->
+  admissible0 c (lower cops) /\ no_writeback (lower cops).
+Proof.
+  induction cops as [|o r IH]; intros c CC S; [cbn; auto|].
+  cbn in S. apply andb_prop in S. destruct S as [S1 S2].
+  destruct (@sync1 c o CC S1) as (A & B & C). destruct (IH _ C S2) as (A2 & B2).
+  unfold Cache.lower. cbn [flat_map]. split; [apply admissible0_app; auto | apply no_writeback_app; auto].
+Qed.
+
+Lemma cclean_empty : cclean c_empty.
+Proof. repeat split; auto. intros k e []. Qed.
+
+Theorem refines_sync : forall cops,
+  forallb (is_sync (K:=K) (V:=V)) cops = true -> Forall congr_op (lower cops) ->
+  Forall2 out_rel (fst (run c_empty (lower cops))) (fst (spec_run (s_empty (K:=K) (V:=V)) (lower cops))).
+Proof.
+  intros cops S CG. destruct (@sync_admissible cops _ cclean_empty S) as [A B].
+  apply refines_nowb; auto.
+Qed.
+
+(* ---------- reads ---------- *)
+Lemma rets_rel : forall xs ys, Forall2 out_rel xs ys -> Forall2 Req (rets xs) (rets ys).
+Proof.
+  induction 1 as [|x y xs ys R F IH]; [constructor|].
+  unfold rets in *. cbn [flat_map]. destruct x, y; cbn in R; try contradiction; cbn [app]; auto.
+Qed.
+
+(* evictions and flush+reopen cycles are invisible to the specification *)
+Definition is_maint (o : cop (K:=K) (V:=V)) : bool := match o with CEvict _ _ _ | CFlushReopen => true | _ => false end.
+
+Lemma spec_run_app_fst : forall a b m,
+  fst (spec_run m (a ++ b)) = fst (spec_run m a) ++ fst (spec_run (snd (spec_run m a)) b).
+Proof.
+  induction a as [|o a IH]; intros b m; [reflexivity|].
+  cbn [app Cache.spec_run]. destruct (spec_step m o) as [m' x]. specialize (IH b m').
+  destruct (spec_run m' (a ++ b)) as [xs c2]. destruct (spec_run m' a) as [ys c3]. cbn [fst snd] in *. rewrite IH. reflexivity.
+Qed.
+
+Lemma rets_app : forall a b : list out, rets (a ++ b) = rets a ++ rets b.
+Proof. intros. unfold rets. apply flat_map_app. Qed.
+
+Lemma spec_maint : forall o m, is_maint o = true ->
+  rets (fst (spec_run m (lower1 o))) = [] /\ snd (spec_run m (lower1 o)) = m.
+Proof.
+  intros o m H. destruct o; try discriminate; cbn [Cache.lower1].
+  - cbn [Cache.spec_run Cache.spec_step]. induction (length order) as [|n IH]; cbn; auto.
+    cbn in IH. destruct (spec_run m (repeat (OSaveCompletes false) n)) as [xs m']. cbn in *. auto.
+  - cbn. auto.
+Qed.
+
+Lemma spec_ignores_maint : forall cops m,
+  rets (fst (spec_run m (lower cops))) = rets (fst (spec_run m (lower (filter (fun o => negb (is_maint o)) cops)))).
+Proof.
+  induction cops as [|o r IH]; intros m; [reflexivity|].
+  unfold Cache.lower in *. cbn [flat_map filter]. destruct (is_maint o) eqn:M; cbn [negb].
+  - rewrite spec_run_app_fst, rets_app. destruct (spec_maint o m M) as [A B]. rewrite A, B. cbn [app]. apply IH.
+  - cbn [flat_map]. rewrite !spec_run_app_fst, !rets_app. rewrite IH. reflexivity.
+Qed.
+
+Lemma filter_sync : forall cops, forallb (is_sync (K:=K) (V:=V)) cops = true ->
+  forallb (is_sync (K:=K) (V:=V)) (filter (fun o => negb (is_maint o)) cops) = true.
+Proof.
+  induction cops as [|o r IH]; cbn; [auto|]. intros H. apply andb_prop in H. destruct H as [H1 H2].
+  destruct (negb (is_maint o)); cbn; [rewrite H1; auto | auto].
+Qed.
+
+Lemma filter_congr : forall cops, Forall congr_op (lower cops) ->
+  Forall congr_op (lower (filter (fun o => negb (is_maint o)) cops)).
+Proof.
+  induction cops as [|o r IH]; cbn; [auto|]. unfold Cache.lower in *. cbn [flat_map]. intros H.
+  apply Forall_app in H. destruct H as [H1 H2].
+  destruct (negb (is_maint o)); cbn [flat_map]; [apply Forall_app; split; auto | auto].
+Qed.
+
+(* cache transparency: the reads of a history with evictions (any fraction, any order the LFU allows) and
+   flush+reopen cycles inserted anywhere are equivalent to the reads of the history without them *)
+Theorem cache_transparent : forall cops,
+  forallb (is_sync (K:=K) (V:=V)) cops = true -> Forall congr_op (lower cops) ->
+  Forall2 Req (rets (fst (run c_empty (lower cops))))
+              (rets (fst (run c_empty (lower (filter (fun o => negb (is_maint o)) cops))))).
+Proof.
+  intros cops S CG.
+  pose proof (rets_rel (refines_sync cops S CG)) as A.
+  pose proof (rets_rel (refines_sync _ (filter_sync _ S) (filter_congr _ CG))) as B.
+  rewrite (spec_ignores_maint cops) in A.
+  revert A B. generalize (rets (fst (run c_empty (lower cops)))).
+  generalize (rets (fst (run c_empty (lower (filter (fun o => negb (is_maint o)) cops))))).
+  generalize (rets (fst (spec_run (s_empty (K:=K) (V:=V)) (lower (filter (fun o => negb (is_maint o)) cops))))).
+  intros ys zs xs A. revert zs. induction A as [|x y xs ys R F IH]; intros zs B; inversion B; subst; constructor.
+  - etransitivity; [exact R | symmetry; assumption].
+  - apply IH. assumption.
+Qed.
+
+End Refine.
+
+(* ---------- C05: the instance Req = eq ---------- *)
+Section C05.
+Context {K V D : Type}.
+Context (keq : forall a b : K, {a = b} + {a <> b}).
+Context (dflt : K -> V) (enc : K -> V -> D) (dec : K -> D -> V).
+Context (codec : forall k v, dec k (enc k v) = v).
+
+Notation run := (run keq dflt enc dec).
+Notation spec_run := (spec_run keq dflt).
+
+Lemma congr_eq : forall ops : list (op (K:=K) (V:=V)), Forall (congr_op eq) ops.
+Proof. intros. apply Forall_forall. intros o _. destruct o; cbn; auto. intros; congruence. Qed.
+
+Lemma Forall2_eq : forall (xs ys : list V), Forall2 eq xs ys -> xs = ys.
+Proof. induction 1; congruence. Qed.
+
+Lemma c05_refines : forall ops,
+  no_writeback ops -> admissible0 keq dflt enc dec c_empty ops ->
+  rets (fst (run c_empty ops)) = rets (fst (spec_run s_empty ops)).
+Proof.
+  intros ops NW AD. apply Forall2_eq. apply (rets_rel (Req:=eq)).
+  apply (refines_nowb keq dflt enc dec (Req:=eq) codec NW AD (congr_eq ops)).
+Qed.
+
+Lemma c05_refines_sync : forall cops,
+  forallb (is_sync (K:=K) (V:=V)) cops = true ->
+  rets (fst (run c_empty (lower cops))) = rets (fst (spec_run s_empty (lower cops))).
+Proof.
+  intros cops S. apply Forall2_eq. apply (rets_rel (Req:=eq)).
+  apply (refines_sync keq dflt enc dec (Req:=eq) codec cops S (congr_eq _)).
+Qed.
+
+Lemma c05_writeback_partial : forall ops,
+  admissible keq dflt enc dec c_empty ops ->
+  rets (fst (run c_empty ops)) = rets (fst (spec_run s_empty ops)).
+Proof.
+  intros ops AD.
+  pose proof (@refines_general K V D keq dflt enc dec eq _ codec ops c_empty s_empty
+                (inv_init keq dflt dec eq ops) AD (congr_eq ops)) as [H _].
+  apply Forall2_eq. apply (rets_rel (Req:=eq)). exact H.
+Qed.
+
+Lemma c05_flush_durable : forall ops,
+  admissible keq dflt enc dec c_empty (ops ++ [OFlushReopen]) ->
+  let c' := snd (run c_empty (ops ++ [OFlushReopen])) in
+  let m' := snd (spec_run s_empty ops) in
+  c_lfu c' = [] /\ c_evq c' = [] /\ c_wbq c' = [] /\
+  forall k, match m' k with
+            | Some v => exists d, c_disk c' k = Some d /\ dec k d = v
+            | None => c_disk c' k = None
+            end.
+Proof. intros ops AD. exact (@flush_durable K V D keq dflt enc dec eq _ codec ops AD (congr_eq ops)). Qed.
+
+Lemma c05_delete_removes : forall (c : cache (K:=K) (V:=V) (D:=D)) k,
+  let c' := fst (step keq dflt enc dec c (ODelete k)) in
+  l_find keq k (c_lfu c') = None /\ c_disk c' k = None.
+Proof.
+  intros c k. cbn. split.
+  - apply l_find_none. intros H. apply in_map_iff in H. destruct H as [[k1 e1] [H1 H2]]. cbn in H1. subst.
+    apply In_remove in H2. tauto.
+  - unfold d_set. destruct (keq k k); congruence.
+Qed.
+
+End C05.
+
+(* ---------- witnesses on a concrete instance: keys, values and disk content are numbers, identity codec ---------- *)
+Section Witnesses.
+Open Scope N_scope.
+Definition w_dflt (k : N) : N := 1000 + k.
+Definition w_id (k v : N) : N := v.
+Notation runW := (run N.eq_dec w_dflt w_id w_id).
+Notation specW := (spec_run N.eq_dec w_dflt).
+Notation adm0W := (admissible0 N.eq_dec w_dflt w_id w_id).
+Notation emptyW := (c_empty (K:=N) (V:=N) (D:=N)).
+Notation sW := (s_empty (K:=N) (V:=N)).
+
+Ltac quiet_tac := repeat split; try exact I; unfold quiet, inflight; cbn; intuition discriminate.
+
+(* D10: with write-back (one send accepted, one dropped) a key is lost although every other hypothesis holds *)
+Definition w_d10 : list (op (K:=N) (V:=N)) :=
+  [OPut 0 11; OPut 1 12; OWriteBack [0]; OSaveCompletes true; OFlushReopen; ORead 0; ORead 1].
+
+Lemma c05_writeback_refuted :
+  exists ops, adm0W emptyW ops /\ ~ In Bad (fst (runW emptyW ops)) /\
+              rets (fst (runW emptyW ops)) <> rets (fst (specW sW ops)).
+Proof.
+  exists w_d10. split; [|split].
+  - unfold w_d10. cbn. quiet_tac.
+  - vm_compute. intuition discriminate.
+  - intros H. vm_compute in H. discriminate H.
+Qed.
+
+(* D11: without write-back, a Get that overlaps the in-flight save of its key returns a fresh default,
+   and that default later reaches the disk *)
+Definition w_d11 : list (op (K:=N) (V:=N)) :=
+  [OPut 0 7; OEvict 1 1 [0]; ORead 0; OSaveCompletes false; ORead 0; OEvict 1 1 [0]; OSaveCompletes false].
+
+Lemma c05_inflight_refuted :
+  exists ops, no_writeback ops /\ ~ In Bad (fst (runW emptyW ops)) /\
+              rets (fst (runW emptyW ops)) <> rets (fst (specW sW ops)) /\
+              c_disk (snd (runW emptyW ops)) 0 = Some (w_dflt 0).
+Proof.
+  exists w_d11. split; [reflexivity|]. split; [vm_compute; intuition discriminate|]. split.
+  - intros H. vm_compute in H. discriminate H.
+  - vm_compute. reflexivity.
+Qed.
+
+(* same root cause: a Delete that overlaps the in-flight save is undone when the save lands *)
+Definition w_d11_delete : list (op (K:=N) (V:=N)) :=
+  [OPut 0 7; OEvict 1 1 [0]; ODelete 0; OSaveCompletes false; ORead 0].
+
+Lemma c05_inflight_delete_refuted :
+  exists ops, no_writeback ops /\ ~ In Bad (fst (runW emptyW ops)) /\
+              rets (fst (runW emptyW ops)) <> rets (fst (specW sW ops)).
+Proof.
+  exists w_d11_delete. split; [reflexivity|]. split; [vm_compute; intuition discriminate|].
+  intros H. vm_compute in H. discriminate H.
+Qed.
+
+(* a mutation through a pointer obtained before the entry was evicted is lost, although all saves had completed *)
+Definition w_stale : list (op (K:=N) (V:=N)) :=
+  [OPut 0 1; ORead 0; OEvict 1 1 [0]; OSaveCompletes false; OMutate 0 (fun _ => 2); ORead 0].
+
+Lemma c05_stale_handle_refuted :
+  exists ops, no_writeback ops /\ ~ In Bad (fst (runW emptyW ops)) /\
+              rets (fst (runW emptyW ops)) <> rets (fst (specW sW ops)).
+Proof.
+  exists w_stale. split; [reflexivity|]. split; [vm_compute; intuition discriminate|].
+  intros H. vm_compute in H. discriminate H.
+Qed.
+
+(* the hypotheses of c05_refines are satisfiable by a history that evicts, reloads, deletes and reopens *)
+Definition w_good : list (cop (K:=N) (V:=N)) :=
+  [CPut 0 5; CPut 1 6; CMutate 0 (fun v => v + 3); CEvict 1 2 [1]; CRead 1; CEvict 1 1 [1; 0]; CRead 0;
+   CDelete 1; CFlushReopen; CRead 0; CRead 1].
+
+Lemma c05_refines_nonvacuous :
+  forallb (is_sync (K:=N) (V:=N)) w_good = true /\
+  no_writeback (lower w_good) /\ adm0W emptyW (lower w_good) /\
+  ~ In Bad (fst (runW emptyW (lower w_good))) /\
+  rets (fst (runW emptyW (lower w_good))) = [5; 6; 8; 8; 1001].
+Proof.
+  assert (S : forallb (is_sync (K:=N) (V:=N)) w_good = true) by reflexivity.
+  destruct (@sync_admissible N N N N.eq_dec w_dflt w_id w_id w_good emptyW cclean_empty S) as [A B].
+  split; [exact S|]. split; [exact B|]. split; [exact A|]. split.
+  - vm_compute. intuition discriminate.
+  - vm_compute. reflexivity.
+Qed.
+
+(* the hypotheses of c05_writeback_partial are satisfiable with a write-back whose sends are all accepted *)
+Definition w_wb_ok : list (op (K:=N) (V:=N)) :=
+  [OPut 0 11; OPut 1 12; OWriteBack [0; 1]; OSaveCompletes true; OSaveCompletes true; OFlushReopen; ORead 0; ORead 1].
+
+Lemma c05_writeback_partial_nonvacuous :
+  admissible N.eq_dec w_dflt w_id w_id emptyW w_wb_ok /\ ~ In Bad (fst (runW emptyW w_wb_ok)) /\
+  rets (fst (runW emptyW w_wb_ok)) = [11; 12].
+Proof.
+  split; [|split].
+  - unfold w_wb_ok. cbn. repeat split; try exact I; unfold quiet, inflight; cbn; try (intuition discriminate).
+  - vm_compute. intuition discriminate.
+  - vm_compute. reflexivity.
+Qed.
+
+End Witnesses.
